@@ -5,7 +5,7 @@ From Coq Require Import Lia Sorted.
 From KV Require Import Compaction CompactionProofs CompactionMerge CompactionReach.
 Open Scope N_scope.
 
-Definition prog_ok (k : ccfg) (ops : list cop) : Prop := cfg_ok k /\ Forall op_ok ops.
+Definition prog_ok (k : ccfg) (ops : list cop) : Prop := cfg_ok k.
 
 Lemma disk_read_dread : forall s k, cst_ok2 s -> disk_read s k = dread (disk s) k.
 Proof.
@@ -19,10 +19,10 @@ Theorem merge_system : forall c k ops z lo hi key, prog_ok k ops ->
   let s := crun c k ops in
   disk_read (ctrigger s z) key = disk_read s key /\ disk_read (crange s lo hi z) key = disk_read s key.
 Proof.
-  intros c k ops z lo hi key [Hk Ho] s.
-  pose proof (reachable_wf c k ops Hk Ho) as S. fold s in S.
-  assert (S1 : cst_ok2 (ctrigger s z)) by (apply (cstep_ok2 (CTrigger z)); simpl; auto).
-  assert (S2 : cst_ok2 (crange s lo hi z)) by (apply (cstep_ok2 (CRange lo hi z)); simpl; auto).
+  intros c k ops z lo hi key Hk s.
+  pose proof (reachable_wf c k ops Hk) as S. fold s in S.
+  assert (S1 : cst_ok2 (ctrigger s z)) by (apply (cstep_ok2 (CTrigger z)); auto).
+  assert (S2 : cst_ok2 (crange s lo hi z)) by (apply (cstep_ok2 (CRange lo hi z)); auto).
   rewrite !disk_read_dread by auto. destruct S as [A B C]. split.
   - unfold ctrigger. destruct (select _ _ _) eqn:E; auto. simpl.
     apply (merge_preserves (disk s) (clock (eng s)) (c_maxmem (cfg (eng s))) (cc s) t); auto. left. auto.
@@ -65,14 +65,15 @@ Lemma cget_creopen : forall s r k, cst_ok2 s ->
   end.
 Proof.
   intros s r k S. unfold cget, creopen. cbn [eng]. fold (reopen_src s r).
-  rewrite cget_split.
-  - assert (M : mem_read (set_ssts (reopen (set_ssts (reopen_src s r) (map d_sst (dsort (disk s)))))
-                           (age_sort (map d_sst (dsort (disk s))))) k = mem_read (reopen (reopen_src s r)) k).
-    { transitivity (mem_read (reopen (set_ssts (reopen_src s r) (map d_sst (dsort (disk s))))) k).
-      reflexivity. apply reopen_mem_ext; reflexivity. }
-    rewrite M. reflexivity.
-  - simpl. pose proof (disk_files_ok s S) as F. rewrite Forall_forall in *. intros t Ht.
-    apply (proj1 (age_sort_in _ _)) in Ht. auto.
+  assert (F : Forall file_ok (ssts (reopen (set_ssts (reopen_src s r) (map d_sst (dsort (disk s))))))).
+  { apply eo_ssts. apply reopen_ok. simpl. apply (disk_files_ok s S). }
+  rewrite cget_split by exact F.
+  assert (M : mem_read (reopen (set_ssts (reopen_src s r) (map d_sst (dsort (disk s))))) k = mem_read (reopen (reopen_src s r)) k).
+  { apply reopen_mem_ext; reflexivity. }
+  rewrite M.
+  assert (E : ssts (reopen (set_ssts (reopen_src s r) (map d_sst (dsort (disk s))))) = sst_sort (map d_sst (dsort (disk s)))).
+  { unfold reopen. destruct (recover_tables _ _ _ _) as [[? ?]|]; reflexivity. }
+  rewrite E. reflexivity.
 Qed.
 
 (* C12, last sentence, the part that is about compaction: the database reopened on the
@@ -83,11 +84,11 @@ Theorem reopen_ignores_compaction : forall c k ops z lo hi r key, prog_ok k ops 
   cget (creopen (ctrigger s z) r) key = cget (creopen s r) key /\
   cget (creopen (crange s lo hi z) r) key = cget (creopen s r) key.
 Proof.
-  intros c k ops z lo hi r key P s. destruct P as [Hk Ho].
-  pose proof (reachable_wf c k ops Hk Ho) as S. fold s in S.
-  assert (S1 : cst_ok2 (ctrigger s z)) by (apply (cstep_ok2 (CTrigger z)); simpl; auto).
-  assert (S2 : cst_ok2 (crange s lo hi z)) by (apply (cstep_ok2 (CRange lo hi z)); simpl; auto).
-  destruct (merge_system c k ops z lo hi key (conj Hk Ho)) as [M1 M2]. fold s in M1, M2.
+  intros c k ops z lo hi r key Hk s.
+  pose proof (reachable_wf c k ops Hk) as S. fold s in S.
+  assert (S1 : cst_ok2 (ctrigger s z)) by (apply (cstep_ok2 (CTrigger z)); auto).
+  assert (S2 : cst_ok2 (crange s lo hi z)) by (apply (cstep_ok2 (CRange lo hi z)); auto).
+  destruct (merge_system c k ops z lo hi key Hk) as [M1 M2]. fold s in M1, M2.
   rewrite !disk_read_dread in M1, M2 by auto.
   rewrite !cget_creopen by auto. rewrite M1, M2.
   assert (E1 : forall x, mem_read (reopen (reopen_src (ctrigger s z) r)) x = mem_read (reopen (reopen_src s r)) x).
@@ -147,5 +148,11 @@ Example dropped_marker :
   map (fun f => (d_level f, d_entries f)) (disk s) = [] /\ cget s kx = None.
 Proof. vm_compute. auto. Qed.
 
+(* the empty key is a key like any other (f30cabd) *)
+Example fixed_empty_key :
+  after_retire cfg2 [CPut [] [1]; CPut kb [2]; CFull []; CPut [] [3]; CFull []; CTrigger []] [] = (Some [3], Some [3]) /\
+  after_retire cfg2 [CPut [] [1]; CPut kb [2]; CFull []; CPut [] [3]; CFull []; CTrigger []] kb = (Some [2], Some [2]).
+Proof. vm_compute. auto. Qed.
+
 Example prog_ok_example : prog_ok cc_off [CPut kx [1]; CFull []; CPut kx [2]; CFull []; CTrigger []].
-Proof. split. unfold cfg_ok. simpl. lia. repeat constructor; simpl; discriminate. Qed.
+Proof. unfold prog_ok, cfg_ok. simpl. lia. Qed.
